@@ -4,12 +4,46 @@ import struct
 PROP = "C10"
 ENGINE = "pretty"
 LEAN_MODULES = ["RtoscModel.Props.C10"]
-THEOREMS = []
+_NS = "Rtosc.Pretty."
+THEOREMS = [_NS + t for t in (
+    # tier 1: token codecs, every value of the type, any print options
+    "int_roundtrip", "int64_roundtrip", "char_roundtrip", "string_roundtrip", "symbol_roundtrip",
+    "blob_roundtrip", "midi_roundtrip", "color_roundtrip", "keyword_roundtrip",
+    # tier 2: uncompressed argument lists and whole messages
+    "list_roundtrip", "message_roundtrip",
+    # the proved part of the full statement (print_scan_roundtrip_statement stays a def)
+    "print_scan_roundtrip_partial")]
 HARNESS = {"src": ["pretty.cpp"]}
-RULE = "see generate()"
-ASSUMPTIONS = []
-TRUSTED = []
-LEVEL_TEXT = ""
+RULE = ("each case: print options (lossless, precision 0..9, line length 10..120, compression on/off) and an argument "
+        "list of 0..12 top-level values per type or mixed (i h c f d s S b m r t T F N I; finite floats only in lossless "
+        "mode; strings of printable ASCII and C escapes incl. fragments of the format's own syntax; symbols incl. reserved "
+        "words; time tags 'immediately' or with float-representable fraction), constant and arithmetic runs of length "
+        "1..9 (incl. wrap-around and signed-zero runs), arrays of 0..8 elements, runs of equal arrays, nested arrays; "
+        "20 % as whole messages; plus a stream for the libc sub-models (printf %a %#.Nf, sscanf %f %lf %d %i %x, "
+        "localtime/mktime); a case is non-trivial when it has at least two argument tokens; distinct = distinct op line")
+ASSUMPTIONS = [
+    "the fix patches fixes/C10-01 … C10-14 (and C16-*.patch for rtosc_arg_vals_eq on repeated arrays) are applied to the tree",
+    "proved (Lean, all values, no bound): tiers 1-2 for the types i h c s S b m r T F N I and the time tag 'immediately', "
+    "for lists/messages the printer does not compress (compression off, or no five same-typed values in a row)",
+    "NOT proved, covered by correspondence + round-trip oracle only: floats and doubles, time tags with a date, arrays, "
+    "compressed runs (tier 3), mixed lists containing them",
+    "TZ=UTC, LC_ALL=C; separator \" \"; the output buffer is large enough (the bs bookkeeping only feeds asserts compiled out with NDEBUG)",
+    "the scanner's string buffer is abstracted: string/blob cells carry their bytes",
+]
+TRUSTED = [
+    "hand-written models RtoscModel/Pretty/{Lex,Val,Print,Scan,Check}.lean of pretty-format.c (printer, range "
+    "conversion, checker, scanner), of rtosc_secfracs2float / rtosc_float2secfracs / rtosc_arg_val_from_params "
+    "(rtosc-time.c) and of the integer part of arg-val-math.c",
+    "libc modelled, not verified: RtoscModel/Libc/{Ctype,Printf,Float,Scanf,Time}.lean (snprintf %d %x %02x %a %#.Nf, "
+    "sscanf subset incl. exact strtof/strtod, localtime/mktime under UTC); validated against glibc by the X-stream",
+    "C16's cell type and comparison model RtoscModel/ArgVal/{Val,Cmp}.lean (imported)",
+]
+LEVEL_TEXT = ("Lean theorems: print→check→scan is the identity, with printed length = returned length and the whole text "
+              "consumed, for every value of the types i h c s S b m r T F N I / 'immediately' (tier 1) and for all uncompressed "
+              "lists and messages of them at any line length (tier 2); the full statement incl. floats, dates, arrays and "
+              "compressed ranges is checked by exact model/implementation correspondence and by the round-trip oracle "
+              "evaluated on the implementation, not proved")
+LEVEL_NOTE = "partial: tier 3 (ranges, arrays) and float/date tokens inside lists are correspondence + oracle only"
 
 ESCAPES = [7, 8, 9, 10, 11, 12, 13]
 PRINTABLE = list(range(32, 127))
@@ -289,8 +323,10 @@ def g_args(rng, lossless, stats):
 
 
 def generate(rng, tier, stats):
-    n = 6000 if tier == "quick" else 200000
-    for op in libc_stream(rng, 1500 if tier == "quick" else 60000, stats):
+    n = 50000 if tier == "quick" else 400000
+    for op in libc_stream(rng, 8000 if tier == "quick" else 100000, stats):
+        yield op
+    for op in text_stream(rng, 6000 if tier == "quick" else 100000, stats):
         yield op
     stats.update({"shape_single_type": 0, "shape_mixed": 0, "shape_pieces": 0, "runs": 0, "arrays": 0, "array_runs": 0,
                   "run_len_hist": {}, "array_len_hist": {}, "messages": 0, "lossless": 0, "compress": 0,
@@ -385,6 +421,152 @@ def libc_stream(rng, n, stats):
             yield "X si %s %s %s" % (rng.choice("dix"), rng.choice(["-", "-", "1", "2", "4", "8"]), hx(g_int_text(rng).encode()))
         else:
             yield "X tm %d" % (rng.getrandbits(32) if rng.random() < 0.8 else rng.choice([0, 86399, 86400, 951782399, 951782400, 951868800, 4107542399, 2 ** 32 - 1]))
+
+
+def t_int(rng):
+    v = g_i(rng)
+    r = rng.random()
+    if r < 0.6:
+        return str(v)
+    if r < 0.75:
+        return ("-" if v < 0 else "") + "0x%x" % abs(v)
+    if r < 0.85:
+        return str(v) + "i"
+    return "0%o" % abs(v)
+
+
+def t_num(rng):
+    r = rng.random()
+    if r < 0.35:
+        return t_int(rng)
+    if r < 0.5:
+        return str(g_h(rng)) + "h"
+    if r < 0.8:
+        x = rng.choice(["1.5", "1.", ".5", "-0.25", "1e5", "1e-3", "2.5e+3", "10f", "1.5f", "2d", "1.5d", "0.1", "123.456", "-7.", "1e10"])
+        return x
+    fb = g_f(rng)
+    if rng.random() < 0.5:
+        x = struct.unpack("<f", struct.pack("<I", fb))[0]
+        return "%.3f (%s)" % (x, x.hex().replace("0000000p", "p")) if abs(x) < 1e30 else "1.0 (0x1p+0)"
+    x = struct.unpack("<d", struct.pack("<Q", g_d(rng)))[0]
+    return "%.2fd (%s)" % (x, x.hex()) if abs(x) < 1e30 else "1.0d (0x1p+0)"
+
+
+def t_str(rng):
+    def part(n):
+        out = ""
+        for _ in range(n):
+            c = g_char(rng)
+            out += {7: "\\a", 8: "\\b", 9: "\\t", 10: "\\n", 11: "\\v", 12: "\\f", 13: "\\r", 34: "\\\"", 92: "\\\\"}.get(c, chr(c))
+        return out
+    parts = ['"' + part(rng.randint(0, 8)) + '"' for _ in range(rng.choice([1, 1, 1, 2, 3]))]
+    t = ("\\\n" + " " * rng.randint(0, 6)).join(parts)
+    return t + ("S" if rng.random() < 0.2 else "")
+
+
+def t_date(rng):
+    t = "%04d-%02d-%02d" % (rng.randint(1970, 2100), rng.randint(1, 12), rng.randint(1, 28))
+    r = rng.random()
+    if r < 0.3:
+        return t
+    t += " %02d:%02d" % (rng.randint(0, 23), rng.randint(0, 59))
+    if r < 0.5:
+        return t
+    t += ":%02d" % rng.randint(0, 59)
+    if r < 0.7:
+        return t
+    if r < 0.85:
+        return t + rng.choice([".5", ".25", ".125", ".75", ".000", ".0625"])
+    fr = rng.choice([0x80000000, 0xa0000000, 0x40000000, 0x00010000, 0xfffff000, 1 << rng.randint(8, 31)])
+    return t + ".123 ( ... + 0x%xp-32 s )" % fr
+
+
+def t_scalar(rng):
+    r = rng.random()
+    if r < 0.35:
+        return t_num(rng)
+    if r < 0.45:
+        c = g_char(rng)
+        return "'" + {7: "\\a", 8: "\\b", 9: "\\t", 10: "\\n", 11: "\\v", 12: "\\f", 13: "\\r", 39: "\\'", 92: "\\\\"}.get(c, chr(c)) + "'"
+    if r < 0.6:
+        return t_str(rng)
+    if r < 0.7:
+        return g_ident(rng).decode() if rng.random() < 0.7 else rng.choice(["true", "false", "nil", "inf", "now", "immediately"])
+    if r < 0.76:
+        return "#%08x" % rng.getrandbits(32)
+    if r < 0.82:
+        sp = rng.choice([" ", "", "  "])
+        return "MIDI" + sp + "[" + sp + " ".join("0x%02x" % rng.getrandbits(8) for _ in range(4)) + sp + "]"
+    if r < 0.9:
+        n = rng.randint(0, 5)
+        return "BLOB [" + " ".join([str(n)] + ["0x%02x" % rng.getrandbits(8) for _ in range(n)]) + "]"
+    return t_date(rng)
+
+
+def t_int_range(rng):
+    a = rng.randint(-50, 50)
+    d = rng.choice([1, -1, 2, -3, 5])
+    n = rng.randint(1, 8)
+    suffix = rng.choice(["", "", "h"])
+    sp = rng.choice([" ... ", " ...", "... ", " ...  "])
+    if abs(d) == 1 and rng.random() < 0.6:
+        return "%d%s%s%d%s" % (a, suffix, sp, a + d * n, suffix)
+    return "%d%s %d%s%s%d%s" % (a, suffix, a + d, suffix, sp, a + d * (n + 1), suffix)
+
+
+def t_array(rng, depth=0):
+    r = rng.random()
+    if r < 0.1:
+        return "[]"
+    if r < 0.3:
+        return "[" + t_int_range(rng) + "]"
+    if r < 0.4:
+        a = rng.randint(-5, 5)
+        return "[%d %d ... ]" % (a, a + rng.choice([0, 1, 2, -1]))
+    if r < 0.5 and depth == 0:
+        return "[" + " ".join(t_array(rng, 1) for _ in range(rng.randint(1, 3))) + "]"
+    kind = rng.choice(["i", "s", "c", "k"])
+    n = rng.randint(1, 5)
+    if kind == "i":
+        els = [t_int(rng) for _ in range(n)]
+    elif kind == "s":
+        els = [t_str(rng).rstrip("S") for _ in range(n)]
+    elif kind == "c":
+        els = ["'%s'" % chr(rng.randint(97, 122)) for _ in range(n)]
+    else:
+        els = [rng.choice(["true", "false"]) for _ in range(n)]
+    return "[" + rng.choice(["", " "]) + " ".join(els) + rng.choice(["", " "]) + "]"
+
+
+def g_text(rng):
+    """a text of the documented syntax (doc/Guide.adoc), with free white space and comments"""
+    toks = []
+    for _ in range(rng.randint(0, 6)):
+        r = rng.random()
+        if r < 0.6:
+            toks.append(t_scalar(rng))
+        elif r < 0.72:
+            toks.append(t_int_range(rng))
+        elif r < 0.85:
+            toks.append(t_array(rng))
+        else:
+            toks.append("%dx%s" % (rng.randint(1, 9), rng.choice([t_int(rng), "'a'", "nil", '"s"', "[1 2]", "1.5", "abc"])))
+    out = rng.choice(["", "", " ", "% c\n"])
+    for k, t in enumerate(toks):
+        out += t
+        if k + 1 < len(toks):
+            out += rng.choice([" ", " ", "  ", "\n", "\n    ", " % comment\n", "\t"])
+    return out + rng.choice(["", "", " ", "\n", " % end"])
+
+
+def text_stream(rng, n, stats):
+    for _ in range(n):
+        stats["text_ops"] = stats.get("text_ops", 0) + 1
+        t = g_text(rng)
+        if rng.random() < 0.15:
+            yield "TM " + hx(("/" + "".join(rng.choice("abc/_1") for _ in range(rng.randint(0, 8))) + " " + t).encode())
+        else:
+            yield "T " + hx(t.encode())
 
 
 def nontrivial(op):
@@ -581,3 +763,19 @@ def oracle(op, out):
     except (KeyError, ValueError, IndexError) as e:
         return "unparsable output (%s): %s" % (e, out[:80])
     return None
+
+
+def neighbours(op, rng):
+    """inputs near a disagreeing one: drop arguments, flip options"""
+    w = op.split()
+    if w[0] not in ("A", "M"):
+        return
+    head, args = w[:7], w[7:]
+    for k in range(len(args)):
+        cand = args[:k] + args[k + 1:]
+        if " ".join(cand).count("[") == " ".join(cand).count("]"):
+            yield " ".join(head + cand)
+    for ll in (10, 20, 40, 80, 120):
+        yield " ".join(head[:3] + [str(ll)] + head[4:] + args)
+    for comp in ("0", "1"):
+        yield " ".join(head[:4] + [comp] + head[5:] + args)
